@@ -212,7 +212,7 @@ class Sim:
 def gen_history(rng, primes, nops, mode=None, ordered=None, stops=False, nslots_used=None, chain_bias=0.35, maxlive=120, keep=0.7):
     """one history (list of op lines) + coverage"""
     mode = mode or ('thread' if rng.random() < 0.3 else 'main')
-    ordered = (rng.random() < 0.75) if ordered is None else ordered
+    ordered = (rng.random() < 0.65) if ordered is None else ordered
     sim = Sim(ordered, primes)
     lines = [f"H {mode} {'ord' if ordered else 'uno'}"]
     next_id = [0]
@@ -260,6 +260,13 @@ def gen_history(rng, primes, nops, mode=None, ordered=None, stops=False, nslots_
             owned = rng.choice(cand) if make_box else None
             if owned is not None and stops and sim.how[owned] == 'r': owned = None; kind = 'p' if kind != 'B' else 'B'
             oid = fresh()
+            if ordered and how != 'w' and sim.running and len(sim.reg) + 1 > sim.mitems:
+                # this registration will run a threshold collection.  Which garbage the real conservative stack scan lets
+                # it reclaim is not determined (the harness completes it with a second collection), so the registry
+                # layout afterwards is not either: in histories that compare pending orders, reclaim the garbage first
+                ms = sim.mark_set()
+                if any((not r) and x not in ms for x, r in sim.reg.items()):
+                    lines.append(sim.gc())
             lines.append(sim.new(oid, kind, how, slot, owned))
             # the program keeps the new object (mostly); an owned object is from now on reached through its owner
             kept = [h for h in sim.held if h != owned]
